@@ -1741,7 +1741,7 @@ def c20_programs(tier, sd):
         out.append({"tag": "order_enum", "desc": "solve_order with enum fields %s" % (body,), "prog": one_class(fe_, body, ENUMS), "world": [["top", "obj", "Top"]],
                     "ops": [["randomize", ["top"]], ["randomize", ["top"]], ["randomize_with", ["top"], [E(["!=", b, lit(2)])]]]})
     # seeded random constraint systems over small-domain fields with random acyclic ordering directives
-    for i in range(40 if tier == "quick" else 1500):
+    for i in range(40 if tier == "quick" else 8000):
         nf = rnd.randint(3, 5)
         fields = []
         for j in range(nf):
